@@ -41,6 +41,14 @@ try:
     for f in demo_files: os.remove(f)
     rc, o = sh("git apply %s" % patch, cwd=wt); assert rc == 0, o
     rc, o = sh("go build ./...", cwd=wt); res["build_rc"] = rc
+    prev = os.path.join(V, "seeded", "%s-%s%s" % (a.prop, (a.tag + "-") if a.tag else "", a.k), "meta.json")
+    if a.skip_suite and os.path.exists(prev):
+        # re-evaluation after strengthening a check: the suite result of the first evaluation (same patch) is carried over
+        pe = json.load(open(prev)).get("evaluation", {})
+        if "suite_fail_lines" in pe:
+            res["suite_fail_lines"] = pe["suite_fail_lines"]; res["suite_carried_over"] = True
+        if pe.get("ran"):
+            res["first_evaluation"] = [{"check": r["check"], "exit": r["exit"], "summary": r["summary"]} for r in pe.get("first_evaluation_full", pe["ran"])]
     if not a.skip_suite:
         rc, o = sh("go test -vet=off -count=1 ./... 2>&1 | grep -v 'no test files'", cwd=wt, timeout=3000)
         res["suite_fail_lines"] = [l for l in o.splitlines() if l.startswith(("FAIL", "--- FAIL", "panic:"))][:10]
